@@ -38,12 +38,12 @@ theorem c10_offer_content (sv : Service) (ttl : Nat) :
 /-- a running instance's offer request is one queue request for the multicast group with the configured TTL -/
 theorem c10_offer_is_queued (s : Stack) (i : Nat) (x : Instance) (tid : Nat)
     (hx : s.getInst i = some x) (hrun : x.task = some tid) :
-    s.sendOffer i none false = s.queueSend (x.service.createOfferEntry s.tm.announceTtl) none := by
+    s.sendOffer i none false = (s.logOffer i (.offer false)).queueSend (x.service.createOfferEntry s.tm.announceTtl) none := by
   simp [sendOffer, hx, hrun]
 
 /-- a StopOffer is one queue request with TTL 0 for the multicast group -/
 theorem c10_stopoffer_is_queued (s : Stack) (i : Nat) (x : Instance) (hx : s.getInst i = some x) :
-    s.sendOffer i none true = s.queueSend (x.service.createOfferEntry 0) none := by
+    s.sendOffer i none true = (s.logOffer i .stopOffer).queueSend (x.service.createOfferEntry 0) none := by
   simp [sendOffer, hx]
 
 /-- cancelled before the body ran, or during the initial wait: the task ends without any effect
